@@ -36,7 +36,7 @@ pub fn run(ctx: &mut Ctx) {
     for (n, ok) in r9::selftest(false) {
         ctx.selftest(&n, ok);
     }
-    ctx.require(&["ha=q(N-1)+r", "ha_r=0", "ha_r=N-2", "ha_top_limb_ones", "ha_all_ff", "ha_random", "ha_64_bytes", "ha_small", "h1", "h2", "extract_sign", "extract_enc", "extract_exch", "extract_fails_when_t1=0", "extract_ok_next_to_failure", "annex_keys", "id_empty", "id_long", "h1_same_id_all_hids", "ha_r_limb_ladder", "t1_limb_ladder"]);
+    ctx.require(&["ha=q(N-1)+r", "ha_r=0", "ha_r=N-2", "ha_top_limb_ones", "ha_all_ff", "ha_random", "ha_64_bytes", "ha_small", "h1", "h2", "extract_sign", "extract_enc", "extract_exch", "extract_fails_when_t1=0", "extract_ok_next_to_failure", "annex_keys", "id_empty", "id_long", "h1_same_id_all_hids", "ha_r_limb_ladder", "t1_limb_ladder", "t1_carry_chain"]);
     let pr = r9::params();
     let nm1 = &pr.n - 1u32;
     let two320: BigUint = BigUint::one() << 320;
@@ -234,6 +234,53 @@ pub fn run(ctx: &mut Ctx) {
                 ctx.class("t1_limb_ladder");
                 ctx.class(&format!("t1_ladder:{}", pat));
                 extract_case(ctx, &k, &id, hid, "t1_limb_ladder");
+            }
+        }
+    }
+    // --- master key crafted so that the 256-bit addition H1 + k ripples a carry through limbs that are all ones
+    // (in the sum, or in k itself) or zero
+    {
+        let mut pl = ctx.prng("carry_t1");
+        let reps = ctx.n(2, 24);
+        let mut li = 0u64;
+        for _ in 0..reps {
+            let idl = pl.range(1, 20);
+            let id = pl.bytes(idl);
+            for i in 1..4usize {
+                for run in 1..=(4 - i) {
+                    for mode in 0..3u8 {
+                        li += 1;
+                        let sub = pl.next();
+                        if !ctx.mine(li) {
+                            continue;
+                        }
+                        let mut q = Prng::new(sub, "cc");
+                        let hid = [1u8, 3, 2][(li % 3) as usize];
+                        let hl = r9::to_limbs(&r9::h1(&id, hid));
+                        let Some(kk) = (0..i).rev().find(|&k| hl[k] != 0) else { continue };
+                        let mut v = q.limbs();
+                        for j in (kk + 1)..i {
+                            v[j] = !hl[j];
+                        }
+                        for j in i..(i + run) {
+                            v[j] = match mode {
+                                0 => !hl[j],
+                                1 => u64::MAX,
+                                _ => 0,
+                            };
+                        }
+                        v[kk] = 0u64.wrapping_sub(hl[kk]).wrapping_add(q.below(hl[kk]));
+                        if i + run <= 3 {
+                            v[3] %= 0xB640_0000_02A3_A6F1;
+                        }
+                        let k = r9::from_limbs(&v);
+                        if k.is_zero() || k >= pr.n {
+                            continue;
+                        }
+                        ctx.class("t1_carry_chain");
+                        extract_case(ctx, &k, &id, hid, "t1_carry_chain");
+                    }
+                }
             }
         }
     }
